@@ -228,7 +228,12 @@ class Renderer:  # pylint: disable=too-many-instance-attributes
 
     def cond(self, c: Any) -> None:
         if c[0] == "slot":
-            self.lines.extend(self.atoms[c[1]])
+            atom = self.atoms[c[1]]
+            if any("@L" in l for l in atom):
+                # atoms may span blocks: every occurrence gets its own label
+                lab = self.fresh("xb")
+                atom = [l.replace("@L", lab) for l in atom]
+            self.lines.extend(atom)
         elif c[0] == "not":
             self.cond(c[1])
             self.lines.append("!")
